@@ -18,7 +18,7 @@ REQUIRED_COUNTERS = ('queries_compared', 'absent_prefix_queries', 'save_load_rou
 
 
 def shards(tier, seed):
-    return split(tier, seed, 40000, 400000, 25, 600)
+    return split(tier, seed, 200000, 4000000, 25, 600)
 
 
 def p48(n):
